@@ -67,3 +67,7 @@ func VHKeyedIdentity(n int, clock string, sets [][]*Key, times []uint64, hasTime
 	}
 	return i
 }
+
+// VHPublicOnlyKey returns a key as every other replica sees it: read from the identity
+// stored in git, with its public part only.
+func VHPublicOnlyKey() *Key { return &Key{public: &packet.PublicKey{}} }
